@@ -42,7 +42,7 @@ for i in ids:
     })
 man = {
     "version": 1,
-    "setup_cmd": "cd lean && lake build HexModel HexProofs HexProps hexdriver",
+    "setup_cmd": "cd lean && lake build HexModel hexdriver && for f in HexProps/C*.lean; do lake build HexProps.$(basename $f .lean) || echo \"setup: $f did not build (its check will report it)\"; done",
     "hooks": {"guard": "MERLINR_HEXITAL_VERIF",
               "enable": "no source hooks: all instrumentation is external (sys.setprofile, recording list, TZ env)",
               "baseline_off_cmd": "cd /repo && /venv/bin/python -m pytest -ra -q -p no:cacheprovider --timeout=900",
